@@ -45,7 +45,11 @@ PROP = {
             "topics; handler scripts {result, error, unmarshalable result, panic, failing reply publish} with redelivery after Nack (several "
             "replies); AckCommandErrors on/off; no / 15-45 ms / 1 h ListenForReplyTimeout; callers {drain, read one then stop, never read, end "
             "the context before any reply, SendWithReply, parent context cancelled, SendWithReplies failing to send}; foreign notifications "
-            "injected; the reply Pub/Sub closed while contexts are alive (subscriber-closed path); handler error texts containing % patterns, "
+            "injected; the reply Pub/Sub closed while contexts are alive (subscriber-closed path); a reply Pub/Sub that waits for subscriber acks "
+            "(replies published after a listener ended by time-out while the caller never cancels must still be published and their commands "
+            "settled within the liveness bound); a Router time-out middleware ending the command message's context while the handler works "
+            "(reply published and command settled per AckCommandErrors all the same; a settlement without a published reply is a violation); "
+            "SendWithReply / SendWithReplies failing to send; handler error texts containing % patterns, "
             "compared byte for byte; caller contexts with their own deadline later / earlier than ListenForReplyTimeout and without a backend "
             "time-out; scenarios with and without an "
             "OnListenForReplyFinished hook configured (without it the end of the listeners is taken from the goroutine census and the channel "
